@@ -5,6 +5,7 @@
   queues. The theorems hold for every state (hence for any number of calls per run, in any order).
 -/
 import Cobweb.Machine
+import Cobweb.Proofs.TrigSrc
 
 namespace Cobweb.C14
 
@@ -123,5 +124,54 @@ theorem calls_additive (s : St) (a : Act) (as : List Act) :
 
 /-- Non-vacuity: a state where an entity carries a component. -/
 example : alookup (({ comp := fun _ => [(0, 5)] } : St).comp 3) 0 = some 5 := by decide
+
+/-! ### whole executions: triggers come from reacting calls and from nowhere else
+
+`nTrig s` counts the trigger commands waiting anywhere in state `s` (world queue, batches, what a running body has
+queued so far); `producedAt` is what the scripted action performed by the next tick queues (`enqueue`, characterised accessor
+by accessor above); `consumedAt` is the trigger command the next tick applies (`Proofs/TrigSrc.lean`). -/
+
+/-- The counting function of `Proofs/TrigSrc.lean` is the one used above. -/
+theorem cTrig_is_triggers (cs : List Cmd) : cTrig cs = triggers cs := by
+  have : isTrig = isTrigger := by funext c; cases c <;> rfl
+  simp [cTrig, triggers, this, List.countP_eq_length_filter]
+
+/-- **Every tick of every execution** (any program, any history, any state): the trigger commands waiting anywhere change
+    by exactly what this tick's scripted action queues, minus the trigger command this tick applies. Reactions, polls,
+    registrations, revocations, despawns, clean-ups, replays and top-level world operations make none. -/
+theorem triggers_accounted (p : Prog) (h : Hist) {s s' : St} (ht : tick p h s = some s') :
+    nTrig s' + consumedAt s = nTrig s + producedAt p h s := tick_nTrig p h ht
+
+/-- A tick whose action (if it performs one) makes no reacting call adds no trigger: in particular reads and the
+    explicitly non-reacting accessors (`reads_never_trigger`, `noreact_never_triggers`) never cause a reaction, whatever
+    else is going on in the tree. -/
+theorem no_trigger_without_reacting_call (p : Prog) (h : Hist) {s s' : St} (ht : tick p h s = some s')
+    (hq : producedAt p h s = 0) : nTrig s' ≤ nTrig s := by
+  have := tick_nTrig p h ht; omega
+
+/-- Executions in which no action makes a reacting call. -/
+inductive SilentReach (p : Prog) (h : Hist) (s0 : St) : St → Prop
+  | refl : SilentReach p h s0 s0
+  | tick {s s' : St} : SilentReach p h s0 s → producedAt p h s = 0 → tick p h s = some s' → SilentReach p h s0 s'
+
+/-- From a state with no trigger pending, no trigger is ever pending as long as no reacting call is made. -/
+theorem silent_stays_silent {p : Prog} {h : Hist} {s0 s : St} (hr : SilentReach p h s0 s) (h0 : nTrig s0 = 0) : nTrig s = 0 := by
+  induction hr with
+  | refl => exact h0
+  | tick _ hq ht ih => have := no_trigger_without_reacting_call p h ht hq; omega
+
+/-- What a body's tick adds is what the accessor table says for the action it performs. -/
+theorem body_tick_adds (p : Prog) (h : Hist) (s : St) (sys : Nat) (k : Kind) (i : Nat) (acc : List Cmd) (rest : List Frame)
+    (a : Act) (hs : s.stack = .bodyActs sys k i acc :: rest) (ha : p sys i { s with stack := rest } = some a) :
+    producedAt p h s = triggers (enqueue { s with stack := rest } a).2 := by
+  simp [producedAt, hs, produced, ha, cTrig_is_triggers]
+
+/-- Non-vacuity: a body about to call `ReactResMut::get_mut` adds one trigger; one about to call `ReactRes::get` adds none. -/
+example : producedAt (fun _ _ _ => some (.resMut 0)) { op := fun _ _ => none, act := fun _ _ _ => none }
+    ({ stack := [.bodyActs 7 .plain 0 []] } : St) = 1 := by
+  simp [producedAt, produced, enqueue, cTrig_cons, isTrig]
+example : producedAt (fun _ _ _ => some (.resRead 0)) { op := fun _ _ => none, act := fun _ _ _ => none }
+    ({ stack := [.bodyActs 7 .plain 0 []] } : St) = 0 := by
+  simp [producedAt, produced, enqueue]
 
 end Cobweb.C14
